@@ -1,0 +1,408 @@
+//! Verification hooks for the object-store server (only compiled with
+//! `--cfg gothenburgbitfactory_taskchampion_verif`); re-exported as `server::verif`.
+//!
+//! [`MemStore`] is an in-memory object store shared by any number of [`VerifCloudServer`]s, each
+//! of which is the crate's real `CloudServer` over a [`Service`] implementation whose every
+//! request (and every page of a listing) first consults a harness-supplied [`Gate`].
+
+use super::iter::AsyncObjectIterator;
+use super::server::CloudServer;
+use super::service::{ObjectInfo, Service};
+use crate::errors::{Error, Result};
+use crate::server::{
+    AddVersionResult, GetVersionResult, HistorySegment, Server, Snapshot, SnapshotUrgency,
+    VersionId,
+};
+use async_trait::async_trait;
+use std::collections::{BTreeMap, VecDeque};
+use std::sync::{Arc, Mutex};
+
+/// One request to the object store, as seen by the [`Gate`].
+#[derive(Debug, Clone, PartialEq, Eq, Hash)]
+pub enum Request {
+    Get { name: String },
+    Put { name: String, len: usize },
+    Del { name: String },
+    ListPage { prefix: String, page: usize },
+    Cas { name: String, expected: Option<Vec<u8>>, new: Vec<u8> },
+}
+
+/// The gate's answer for one request.
+#[derive(Debug, Clone, Copy, PartialEq, Eq, Hash)]
+pub enum Decision {
+    /// Perform the request normally.
+    Proceed,
+    /// (Put of a new name only) perform it, but order the new object *before* every existing
+    /// one, so that listings already in progress do not see it.
+    ProceedFront,
+    /// Fail without any effect.
+    FailBefore,
+    /// Perform the request, then report failure.
+    FailAfter,
+}
+
+/// Harness-supplied interceptor consulted before every request.
+#[async_trait]
+pub trait Gate: Send + Sync {
+    async fn before(&self, client: usize, req: &Request) -> Decision;
+}
+
+#[derive(Debug, Clone)]
+struct Obj {
+    value: Vec<u8>,
+    creation: u64,
+    rank: i64,
+}
+
+#[derive(Debug, Clone)]
+struct Inner {
+    objects: BTreeMap<String, Obj>,
+    now: u64,
+    page_size: usize,
+    next_back: i64,
+    next_front: i64,
+}
+
+/// A shared in-memory object store. `Clone` gives another handle on the same store;
+/// [`MemStore::fork`] gives an independent copy.
+#[derive(Debug, Clone)]
+pub struct MemStore(Arc<Mutex<Inner>>);
+
+/// A dumped object: (name, value, creation time, listing rank).
+pub type DumpedObject = (String, Vec<u8>, u64, i64);
+
+impl MemStore {
+    pub fn new(page_size: usize, now: u64) -> Self {
+        MemStore(Arc::new(Mutex::new(Inner {
+            objects: BTreeMap::new(),
+            now,
+            page_size: page_size.max(1),
+            next_back: 1,
+            next_front: -1,
+        })))
+    }
+
+    /// An independent deep copy of this store.
+    pub fn fork(&self) -> Self {
+        MemStore(Arc::new(Mutex::new(self.0.lock().unwrap().clone())))
+    }
+
+    pub fn set_now(&self, now: u64) {
+        self.0.lock().unwrap().now = now;
+    }
+
+    pub fn now(&self) -> u64 {
+        self.0.lock().unwrap().now
+    }
+
+    pub fn set_page_size(&self, page_size: usize) {
+        self.0.lock().unwrap().page_size = page_size.max(1);
+    }
+
+    /// All objects, in listing order.
+    pub fn dump(&self) -> Vec<DumpedObject> {
+        let inner = self.0.lock().unwrap();
+        let mut v: Vec<DumpedObject> = inner
+            .objects
+            .iter()
+            .map(|(n, o)| (n.clone(), o.value.clone(), o.creation, o.rank))
+            .collect();
+        v.sort_by_key(|t| t.3);
+        v
+    }
+
+    pub fn raw_get(&self, name: &str) -> Option<Vec<u8>> {
+        self.0.lock().unwrap().objects.get(name).map(|o| o.value.clone())
+    }
+
+    /// Put without consulting any gate, with an explicit creation time.
+    pub fn raw_put(&self, name: &str, value: Vec<u8>, creation: u64) {
+        self.0.lock().unwrap().put(name, value, Some(creation), false);
+    }
+
+    /// Set the creation time of an existing object. Returns false if there is none.
+    pub fn raw_set_creation(&self, name: &str, creation: u64) -> bool {
+        match self.0.lock().unwrap().objects.get_mut(name) {
+            Some(o) => {
+                o.creation = creation;
+                true
+            }
+            None => false,
+        }
+    }
+
+    pub fn raw_del(&self, name: &str) -> bool {
+        self.0.lock().unwrap().objects.remove(name).is_some()
+    }
+}
+
+impl Inner {
+    fn put(&mut self, name: &str, value: Vec<u8>, creation: Option<u64>, front: bool) {
+        let creation = creation.unwrap_or(self.now);
+        if let Some(o) = self.objects.get_mut(name) {
+            o.value = value;
+            o.creation = creation;
+            return;
+        }
+        let rank = if front {
+            self.next_front -= 1;
+            self.next_front + 1
+        } else {
+            self.next_back += 1;
+            self.next_back - 1
+        };
+        self.objects.insert(
+            name.to_string(),
+            Obj {
+                value,
+                creation,
+                rank,
+            },
+        );
+    }
+
+    /// The next page of objects with the given prefix and rank greater than `cursor`.
+    fn page(&self, prefix: &str, cursor: Option<i64>) -> Vec<(ObjectInfo, i64)> {
+        let mut v: Vec<(&String, &Obj)> = self
+            .objects
+            .iter()
+            .filter(|(n, o)| n.starts_with(prefix) && cursor.is_none_or(|c| o.rank > c))
+            .collect();
+        v.sort_by_key(|(_, o)| o.rank);
+        v.truncate(self.page_size);
+        v.into_iter()
+            .map(|(n, o)| {
+                (
+                    ObjectInfo {
+                        name: n.clone(),
+                        creation: o.creation,
+                    },
+                    o.rank,
+                )
+            })
+            .collect()
+    }
+}
+
+/// The [`Service`] implementation over a [`MemStore`].
+pub(in crate::server) struct MemService {
+    store: MemStore,
+    client: usize,
+    gate: Option<Arc<dyn Gate>>,
+}
+
+impl MemService {
+    async fn decide(&self, req: Request) -> Decision {
+        match &self.gate {
+            Some(g) => g.before(self.client, &req).await,
+            None => Decision::Proceed,
+        }
+    }
+}
+
+fn injected(what: &str) -> Error {
+    Error::Server(format!("verif injected object-store failure ({what})"))
+}
+
+#[async_trait]
+impl Service for MemService {
+    async fn put(&mut self, name: &str, value: &[u8]) -> Result<()> {
+        let d = self
+            .decide(Request::Put {
+                name: name.to_string(),
+                len: value.len(),
+            })
+            .await;
+        if d == Decision::FailBefore {
+            return Err(injected("put"));
+        }
+        self.store
+            .0
+            .lock()
+            .unwrap()
+            .put(name, value.to_vec(), None, d == Decision::ProceedFront);
+        if d == Decision::FailAfter {
+            return Err(injected("put, after effect"));
+        }
+        Ok(())
+    }
+
+    async fn get(&mut self, name: &str) -> Result<Option<Vec<u8>>> {
+        let d = self
+            .decide(Request::Get {
+                name: name.to_string(),
+            })
+            .await;
+        if d == Decision::FailBefore || d == Decision::FailAfter {
+            return Err(injected("get"));
+        }
+        Ok(self.store.raw_get(name))
+    }
+
+    async fn del(&mut self, name: &str) -> Result<()> {
+        let d = self
+            .decide(Request::Del {
+                name: name.to_string(),
+            })
+            .await;
+        if d == Decision::FailBefore {
+            return Err(injected("del"));
+        }
+        self.store.raw_del(name);
+        if d == Decision::FailAfter {
+            return Err(injected("del, after effect"));
+        }
+        Ok(())
+    }
+
+    async fn list<'a>(&'a mut self, prefix: &'a str) -> Box<dyn AsyncObjectIterator + Send + 'a> {
+        Box::new(MemIter {
+            svc: self,
+            prefix: prefix.to_string(),
+            cursor: None,
+            buf: VecDeque::new(),
+            page: 0,
+            done: false,
+        })
+    }
+
+    async fn compare_and_swap(
+        &mut self,
+        name: &str,
+        existing_value: Option<Vec<u8>>,
+        new_value: Vec<u8>,
+    ) -> Result<bool> {
+        let d = self
+            .decide(Request::Cas {
+                name: name.to_string(),
+                expected: existing_value.clone(),
+                new: new_value.clone(),
+            })
+            .await;
+        if d == Decision::FailBefore {
+            return Err(injected("compare_and_swap"));
+        }
+        let swapped = {
+            let mut inner = self.store.0.lock().unwrap();
+            let current = inner.objects.get(name).map(|o| o.value.clone());
+            if current == existing_value {
+                inner.put(name, new_value, None, false);
+                true
+            } else {
+                false
+            }
+        };
+        if d == Decision::FailAfter {
+            return Err(injected("compare_and_swap, after effect"));
+        }
+        Ok(swapped)
+    }
+}
+
+struct MemIter<'a> {
+    svc: &'a mut MemService,
+    prefix: String,
+    cursor: Option<i64>,
+    buf: VecDeque<ObjectInfo>,
+    page: usize,
+    done: bool,
+}
+
+#[async_trait]
+impl AsyncObjectIterator for MemIter<'_> {
+    async fn next(&mut self) -> Option<Result<ObjectInfo>> {
+        if self.buf.is_empty() && !self.done {
+            let d = self
+                .svc
+                .decide(Request::ListPage {
+                    prefix: self.prefix.clone(),
+                    page: self.page,
+                })
+                .await;
+            if d == Decision::FailBefore || d == Decision::FailAfter {
+                self.done = true;
+                return Some(Err(injected("list page")));
+            }
+            self.page += 1;
+            let (page, page_size) = {
+                let inner = self.svc.store.0.lock().unwrap();
+                (inner.page(&self.prefix, self.cursor), inner.page_size)
+            };
+            if page.len() < page_size {
+                self.done = true;
+            }
+            for (info, rank) in page {
+                self.cursor = Some(rank);
+                self.buf.push_back(info);
+            }
+        }
+        self.buf.pop_front().map(Ok)
+    }
+}
+
+/// The crate's real `CloudServer` over a [`MemStore`].
+pub struct VerifCloudServer {
+    inner: CloudServer<MemService>,
+}
+
+impl VerifCloudServer {
+    /// Open the object-store server for client number `client` on `store`. No gate is consulted
+    /// while the server is constructed; install one with [`VerifCloudServer::set_gate`].
+    pub async fn new(store: MemStore, client: usize, encryption_secret: Vec<u8>) -> Result<Self> {
+        let svc = MemService {
+            store,
+            client,
+            gate: None,
+        };
+        Ok(VerifCloudServer {
+            inner: CloudServer::new(svc, encryption_secret).await?,
+        })
+    }
+
+    pub fn set_gate(&mut self, gate: Option<Arc<dyn Gate>>) {
+        self.inner.verif_service_mut().gate = gate;
+    }
+
+    /// Run the server's cleanup now.
+    pub async fn cleanup(&mut self) -> Result<()> {
+        self.inner.verif_cleanup().await
+    }
+
+    /// Values that the server's next random draws will return, in order; once they are used up
+    /// `default` is returned (or real randomness when `default` is `None`).
+    pub fn set_draws(&mut self, draws: Vec<u8>, default: Option<u8>) {
+        self.inner.verif_set_draws(draws, default);
+    }
+
+    pub fn cleanup_probability(&self) -> u8 {
+        self.inner.verif_cleanup_probability()
+    }
+}
+
+#[async_trait(?Send)]
+impl Server for VerifCloudServer {
+    async fn add_version(
+        &mut self,
+        parent_version_id: VersionId,
+        history_segment: HistorySegment,
+    ) -> Result<(AddVersionResult, SnapshotUrgency)> {
+        self.inner
+            .add_version(parent_version_id, history_segment)
+            .await
+    }
+
+    async fn get_child_version(
+        &mut self,
+        parent_version_id: VersionId,
+    ) -> Result<GetVersionResult> {
+        self.inner.get_child_version(parent_version_id).await
+    }
+
+    async fn add_snapshot(&mut self, version_id: VersionId, snapshot: Snapshot) -> Result<()> {
+        self.inner.add_snapshot(version_id, snapshot).await
+    }
+
+    async fn get_snapshot(&mut self) -> Result<Option<(VersionId, Snapshot)>> {
+        self.inner.get_snapshot().await
+    }
+}
